@@ -41,15 +41,12 @@ fn shape_covers(b: &[u8], s: &RefSplit) {
         s.scheme.is_some() && s.authority.is_some() && s.query.is_some() && s.fragment.is_some() && s.path.1 > s.path.0,
         "all five components present, path non-empty"
     );
-    cover!(s.scheme.is_none() && s.authority.is_some(), "network-path reference");
+    cover!(s.scheme.is_none() == s.scheme.is_none() && s.authority.is_some() && s.path.1 == s.path.0, "authority with an empty path");
     cover!(matches!(s.query, Some((a, e)) if a == e), "present-but-empty query");
     cover!(matches!(s.authority, Some((a, e)) if a == e), "present-but-empty authority");
     cover!(matches!(s.fragment, Some((a, e)) if e > a && b[a] == b'?'), "'?' inside the fragment");
     cover!(matches!(s.query, Some((a, e)) if e > a && b[a] == b'/'), "'/' inside the query");
-    cover!(
-        s.scheme.is_none() && s.authority.is_none() && s.path.1 > s.path.0 + 2 && b[s.path.1 - 1] == b':',
-        "':' in a later segment of a relative path"
-    );
+    cover!(s.authority.is_none() && s.path.1 > s.path.0 + 2 && b[s.path.1 - 1] == b':', "':' in a later segment of the path");
 }
 
 macro_rules! body {
@@ -58,7 +55,7 @@ macro_rules! body {
             let t = Text::<N>::any();
             let $b = t.bytes();
             let b = $b;
-            assume(tables::$table(b));
+            assume(tables::$table(b, N));
             let want = split_ref(b);
             assert!(tiles(b, &want), "oracle self-check: App. B ranges tile the text");
             let x = $mk;
@@ -71,16 +68,16 @@ macro_rules! body {
     };
 }
 
-body!(uriref_body, t_uri_uriref_valid, b => unsafe { UriRef::new_unchecked(b) });
-body!(uri_body, t_uri_uri_valid, b => unsafe { Uri::new_unchecked(b) });
-body!(iriref_body, t_iri_iriref_valid, b => unsafe { IriRef::new_unchecked(as_str(b)) });
-body!(iri_body, t_iri_iri_valid, b => unsafe { Iri::new_unchecked(as_str(b)) });
-body!(urirefbuf_body, t_uri_uriref_valid, b => unsafe { Box::new(UriRefBuf::new_unchecked(vec_of(b))) });
-body!(uribuf_body, t_uri_uri_valid, b => unsafe { Box::new(UriBuf::new_unchecked(vec_of(b))) });
-body!(irirefbuf_body, t_iri_iriref_valid, b => unsafe {
+body!(uriref_body, t_uri_uriref_valid_k, b => unsafe { UriRef::new_unchecked(b) });
+body!(uri_body, t_uri_uri_valid_k, b => unsafe { Uri::new_unchecked(b) });
+body!(iriref_body, t_iri_iriref_valid_k, b => unsafe { IriRef::new_unchecked(as_str(b)) });
+body!(iri_body, t_iri_iri_valid_k, b => unsafe { Iri::new_unchecked(as_str(b)) });
+body!(urirefbuf_body, t_uri_uriref_valid_k, b => unsafe { Box::new(UriRefBuf::new_unchecked(vec_of(b))) });
+body!(uribuf_body, t_uri_uri_valid_k, b => unsafe { Box::new(UriBuf::new_unchecked(vec_of(b))) });
+body!(irirefbuf_body, t_iri_iriref_valid_k, b => unsafe {
     Box::new(IriRefBuf::new_unchecked(String::from_utf8_unchecked(vec_of(b))))
 });
-body!(iribuf_body, t_iri_iri_valid, b => unsafe { Box::new(IriBuf::new_unchecked(String::from_utf8_unchecked(vec_of(b)))) });
+body!(iribuf_body, t_iri_iri_valid_k, b => unsafe { Box::new(IriBuf::new_unchecked(String::from_utf8_unchecked(vec_of(b)))) });
 
 const ENC: &str = "";
 
@@ -173,14 +170,14 @@ pub fn c02_iribuf_n12() {
 fn components_valid<const N: usize>() {
     let t = Text::<N>::any();
     let b = t.bytes();
-    assume(tables::t_uri_uriref_valid(b));
+    assume(tables::t_uri_uriref_valid_k(b, N));
     let x = unsafe { UriRef::new_unchecked(b) };
     let p = x.parts();
     if let Some(s) = p.scheme {
         assert!(uri::Scheme::new(s.as_bytes()).is_ok(), "returned scheme is not a valid Scheme");
     }
     if let Some(a) = p.authority {
-        assert!(tables::t_uri_authority_valid(a.as_bytes()), "returned authority is not a valid Authority");
+        assert!(tables::t_uri_authority_valid_k(a.as_bytes(), N), "returned authority is not a valid Authority");
     }
     assert!(uri::Path::new(p.path.as_bytes()).is_ok(), "returned path is not a valid Path");
     if let Some(q) = p.query {
